@@ -33,4 +33,6 @@ INVARIANT Inv_C05_Count
 INVARIANT Inv_C05_Closed
 INVARIANT Inv_C05_Call
 INVARIANT Inv_C05_End
+INVARIANT Inv_C05_Returns
+INVARIANT Inv_C17_Returns
 CHECK_DEADLOCK FALSE
